@@ -1086,14 +1086,6 @@ impl Value {
         unsafe { &*(self.0 as *const ChannelObject) }
     }
 
-    unsafe fn get_channel_mut<'a>(&self, _vm: &mut VmGreenThread) -> &'a mut ChannelObject
-    where
-        Self: Sized,
-    {
-        self.check_type(_vm, ValueTag::Channel);
-        unsafe { &mut *(self.0 as *mut ChannelObject) }
-    }
-
     fn get_variant<'a>(&self, _vm: &VmGreenThread) -> &'a EnumObject
     where
         Self: Sized,
@@ -1435,11 +1427,80 @@ impl ArrayObject {
     }
 }
 
+// A value in transit between threads. It owns its data (no pointers into any thread's heap),
+// so it stays valid whatever the writing thread does afterwards: mutate the original,
+// collect it, or finish and free its whole heap.
+enum Message {
+    Int(AbraInt),
+    Float(AbraFloat),
+    Bool(bool),
+    Addr(ProgramCounter),
+    String(String),
+    Struct(Vec<Message>),
+    Array(Vec<Message>),
+    Variant(u16, Box<Message>),
+    Channel(MessageQueue),
+}
+
+type MessageQueue = Arc<Mutex<VecDeque<Message>>>;
+
+impl Message {
+    fn from_value(v: Value, vm: &mut VmGreenThread) -> Message {
+        match v.1 {
+            ValueTag::Int => Message::Int(v.get_int(vm)),
+            ValueTag::Float => Message::Float(v.get_float(vm)),
+            ValueTag::Bool => Message::Bool(v.get_bool(vm)),
+            ValueTag::Addr => Message::Addr(v.get_addr(vm)),
+            ValueTag::String => Message::String(v.view_string(vm).to_string()),
+            ValueTag::Struct => {
+                let fields = v.get_struct(vm).get_fields();
+                Message::Struct(fields.iter().map(|f| Message::from_value(*f, vm)).collect())
+            }
+            ValueTag::Array => {
+                let elems = &v.get_array(vm).data;
+                Message::Array(elems.iter().map(|e| Message::from_value(*e, vm)).collect())
+            }
+            ValueTag::Variant => {
+                let variant = v.get_variant(vm);
+                Message::Variant(variant.tag, Box::new(Message::from_value(variant.val, vm)))
+            }
+            ValueTag::Channel => {
+                let channel = unsafe { v.get_channel(vm) };
+                Message::Channel(channel.data.clone())
+            }
+        }
+    }
+
+    // allocates the value in `vm`'s heap
+    fn into_value(self, vm: &mut VmGreenThread) -> Value {
+        match self {
+            Message::Int(n) => n.into(),
+            Message::Float(f) => f.into(),
+            Message::Bool(b) => b.into(),
+            Message::Addr(pc) => pc.into(),
+            Message::String(s) => StringObject::new(s, vm).into(),
+            Message::Struct(fields) => {
+                let fields = fields.into_iter().map(|f| f.into_value(vm)).collect();
+                StructObject::new(fields, vm).into()
+            }
+            Message::Array(elems) => {
+                let elems = elems.into_iter().map(|e| e.into_value(vm)).collect();
+                ArrayObject::new(elems, vm).into()
+            }
+            Message::Variant(tag, val) => {
+                let val = val.into_value(vm);
+                EnumObject::new(tag, val, vm).into()
+            }
+            Message::Channel(data) => ChannelObject::new_with_data(vm, data).into(),
+        }
+    }
+}
+
 #[repr(C)]
 struct ChannelObject {
     header: ObjectHeader,
     // TODO: instead of Arc Mutex VecDeque there's probably something much better
-    data: Arc<Mutex<VecDeque<Value>>>,
+    data: MessageQueue,
 }
 
 impl ChannelObject {
@@ -1447,10 +1508,7 @@ impl ChannelObject {
         ChannelObject::new_with_data(vm, Arc::new(Mutex::new(VecDeque::new())))
     }
 
-    fn new_with_data(
-        vm: &mut VmGreenThread,
-        data: Arc<Mutex<VecDeque<Value>>>,
-    ) -> *mut ChannelObject {
+    fn new_with_data(vm: &mut VmGreenThread, data: MessageQueue) -> *mut ChannelObject {
         let header = ObjectHeader {
             kind: ObjectKind::Channel,
             visited: match &vm.gc_state {
@@ -1474,23 +1532,19 @@ impl ChannelObject {
         chan
     }
 
-    fn read_value(&self) -> Option<Value> {
+    fn read_value(&self) -> Option<Message> {
         let mut data = self.data.lock().unwrap();
         // TODO: it would be better to put this thread to sleep instead of constantly trying and failing to read from the channel
         data.pop_front()
     }
 
-    fn write_value(&self, val: Value) {
+    fn write_value(&self, val: Message) {
         let mut data = self.data.lock().unwrap();
         data.push_back(val);
     }
 
     fn copy(&self, vm: &mut VmGreenThread) -> Value {
         ChannelObject::new_with_data(vm, self.data.clone()).into()
-    }
-
-    fn header_ptr(&mut self) -> *mut ObjectHeader {
-        self as *mut Self as *mut ObjectHeader
     }
 
     fn nbytes(&self) -> usize {
@@ -2264,7 +2318,7 @@ impl VmGreenThread {
                 let read_val = chan_obj.read_value();
                 match read_val {
                     Some(read_val) => {
-                        let read_val = read_val.deep_copy(self);
+                        let read_val = read_val.into_value(self);
                         self.push(read_val)
                     } // TODO: use registers
                     None => {
@@ -2276,11 +2330,11 @@ impl VmGreenThread {
             Instr::ChannelWrite => {
                 let val = self.pop(); // TODO: use registers
                 let chan = self.pop(); // TODO: use registers
-                let chan = unsafe { chan.get_channel_mut(self) };
+                let chan = unsafe { chan.get_channel(self) };
 
-                // TODO: write_barrier not necessary
-                self.write_barrier(chan.header_ptr(), val);
-                chan.write_value(val);
+                // the queue takes an owned copy, made now: later changes to `val` are not sent
+                let message = Message::from_value(val, self);
+                chan.write_value(message);
             }
             Instr::ConstructStruct(n) => self.construct_struct(n as usize),
             Instr::ConstructArray(n) => self.construct_array(n as usize),
@@ -2606,12 +2660,9 @@ impl VmGreenThread {
                     }
                 }
                 ObjectKind::Channel => {
+                    // queued messages own their data: there is nothing in this heap to mark
                     let obj = unsafe { &*(header_ptr as *const ChannelObject) };
                     *batch = batch.saturating_sub(obj.nbytes());
-                    let data = obj.data.lock().unwrap();
-                    for elem in data.iter() {
-                        Self::mark(elem, &mut self.gray_stack, self.gc_visited);
-                    }
                 }
             }
         }
